@@ -246,8 +246,22 @@ class LibMixin:
         i, i2, j = z3.Ints(f"{tag}.i {tag}.i2 {tag}.j")
         path.assume(z3.ForAll([i], sv.Implies(sv.And(0 <= i, i < n), sv.And(0 <= perm(i), perm(i) < n, pinv(perm(i)) == i)), patterns=[perm(i)]))
         path.assume(z3.ForAll([j], sv.Implies(sv.And(0 <= j, j < n), sv.And(0 <= pinv(j), pinv(j) < n, perm(pinv(j)) == j)), patterns=[pinv(j)]))
-        le = self.compare(ast.LtE(), key_of(res.at(i)), key_of(res.at(i2)), path, node)
+        # keys must be mutually comparable (safety at two generic positions)
+        j1, j2 = z3.Int(sv.uid("sj1")), z3.Int(sv.uid("sj2"))
+        path.guards.append(sv.And(0 <= j1, j1 < n, 0 <= j2, j2 < n))
+        try:
+            self.compare(ast.LtE(), key_of(base.at(j1)), key_of(base.at(j2)), path, node)
+        finally:
+            path.guards.pop()
+        self.silent += 1
+        try:
+            le = self.compare(ast.LtE(), key_of(res.at(i)), key_of(res.at(i2)), path, node)
+            le0 = self.compare(ast.LtE(), key_of(res.at(z3.IntVal(0))), key_of(base.at(j)), path, node)
+        finally:
+            self.silent -= 1
         path.assume(z3.ForAll([i, i2], sv.Implies(sv.And(0 <= i, i < i2, i2 < n), le), patterns=[z3.MultiPattern(perm(i), perm(i2))]))
+        # consequence: the first element of the result is a minimum of the original list
+        path.assume(z3.ForAll([j], sv.Implies(sv.And(0 <= j, j < n), le0)))
         res.sorted_of = (base, perm, pinv)
         self.assign(lvalue, res, path)
         return sv.NONE
@@ -354,6 +368,24 @@ class LibMixin:
             if isinstance(v, sv.SList) and getattr(v, "items", None) is not None:
                 lst.items = v.items
             return lst
+        if name == "map":
+            seq = self.as_sequence(args[1], path, node)
+            fnv = args[0]
+            j = z3.Int(sv.uid("mj"))
+            path.guards.append(sv.And(0 <= j, j < seq.n))
+            try:
+                self.call_value(fnv, [seq.at(j)], {}, path, node)  # applicability at a generic position
+            finally:
+                path.guards.pop()
+
+            def at(i, self=self, fnv=fnv, seq=seq, path=path, node=node):
+                self.silent += 1
+                try:
+                    return self.call_value(fnv, [seq.at(i)], {}, path.clone(), node)
+                finally:
+                    self.silent -= 1
+
+            return sv.SPy("seq", Seq(seq.n, at))
         if name == "dict" and not args and not kwargs:
             return self.empty_dict()
         if name == "set" and not args:
